@@ -171,3 +171,73 @@ impl<Item, Err, O: Observer<Item, Err>> Observer<Item, Err>
   }
   fn is_finished(&self) -> bool { self.0.is_finished() }
 }
+
+// ---------------------------------------------------------------- C15
+/// calls the callback without taking it (FnMut bound makes that type-check)
+pub struct TwiceFinalizerObserver<O, F> { observer: O, func: MutRc<Option<F>> }
+impl<Item, Err, O, F> Observer<Item, Err> for TwiceFinalizerObserver<O, F>
+where
+  O: Observer<Item, Err>,
+  F: FnMut(),
+{
+  fn next(&mut self, value: Item) {
+    if let Some(f) = self.func.rc_deref_mut().as_mut() {
+      f()
+    }
+    self.observer.next(value);
+  }
+  fn error(self, err: Err) {
+    self.observer.error(err);
+    if let Some(mut func) = self.func.rc_deref_mut().take() {
+      func()
+    }
+  }
+  fn complete(self) {
+    if let Some(f) = self.func.rc_deref_mut().as_mut() {
+      f()
+    }
+    self.observer.complete();
+  }
+  fn is_finished(&self) -> bool { self.observer.is_finished() }
+}
+
+/// forgets the callback when unsubscribed
+pub struct LazyFinalizerSubscription<U, C> { subscription: U, func: C }
+impl<C, F, U> Subscription for LazyFinalizerSubscription<U, C>
+where
+  U: Subscription,
+  C: RcDerefMut<Target = Option<F>>,
+  F: FnOnce(),
+{
+  fn unsubscribe(self) { self.subscription.unsubscribe(); }
+  fn is_closed(&self) -> bool { self.subscription.is_closed() }
+}
+
+// ---------------------------------------------------------------- C17
+pub struct OneSidedPair<A, B> { a: A, b: B }
+impl<A: Subscription, B: Subscription> Subscription for OneSidedPair<A, B> {
+  fn unsubscribe(self) { self.a.unsubscribe(); self.b.unsubscribe(); }
+  fn is_closed(&self) -> bool { self.a.is_closed() }
+}
+pub struct OrPair<A, B> { a: A, b: B }
+impl<A: Subscription, B: Subscription> Subscription for OrPair<A, B> {
+  fn unsubscribe(self) { self.a.unsubscribe(); self.b.unsubscribe(); }
+  fn is_closed(&self) -> bool { self.a.is_closed() || self.b.is_closed() }
+}
+pub struct GoodPair<A, B> { a: A, b: B }
+impl<A: Subscription, B: Subscription> Subscription for GoodPair<A, B> {
+  fn unsubscribe(self) { self.a.unsubscribe(); self.b.unsubscribe(); }
+  fn is_closed(&self) -> bool { self.a.is_closed() && self.b.is_closed() }
+}
+pub struct LeakyMulti(MutRc<Option<Vec<BoxSubscription<'static>>>>);
+impl LeakyMulti {
+  pub fn append(&mut self, v: BoxSubscription<'static>) {
+    if let Some(vec) = self.0.rc_deref_mut().as_mut() {
+      vec.push(v);
+    }
+  }
+}
+pub struct Reopenable<O>(MutRc<Option<O>>);
+impl<O> Reopenable<O> {
+  pub fn reopen(&self, o: O) { *self.0.rc_deref_mut() = Some(o); }
+}
